@@ -367,7 +367,13 @@ func (l *NDNLPLinkService) handleIncomingFrame(frame []byte) {
 		}
 
 		// Copy fragment to wire buffer
-		wire = wire[:0]
+		if len(fragment) > 1 {
+			// Reassembled packet: the fragment of the current frame still lives in
+			// the wire buffer, so it cannot be overwritten while copying
+			wire = make([]byte, 0, fragment.Length())
+		} else {
+			wire = wire[:0]
+		}
 		for _, b := range fragment {
 			wire = append(wire, b...)
 		}
